@@ -66,6 +66,7 @@ type freeEndpoint struct {
 type freeWorld struct {
 	sc   *Scenario
 	neps atomic.Int32
+	failed atomic.Int32
 	lis  []*net.TCPListener
 
 	// handshake phase only (before the engines' goroutines exist): SYN-ACKs of every accepted
@@ -256,6 +257,16 @@ func (ep *freeEndpoint) build(p freePlan) []byte {
 
 func (w *freeWorld) newSourceSink(addr netip.Addr, useDriver bool) (packets.SourceSinkHandle, bool, error) {
 	idx := int(w.neps.Add(1)) - 1
+	fail := w.sc.Knobs.FreeFailAll
+	for _, k := range w.sc.Knobs.FreeFailNew {
+		if k == idx+1 {
+			fail = true
+		}
+	}
+	if fail {
+		w.failed.Add(1)
+		return packets.SourceSinkHandle{}, true, &SentinelError{Actor: "free", Op: "new", K: idx + 1}
+	}
 	ep := &freeEndpoint{w: w, idx: idx, addr: addr, created: time.Now()}
 	rng := rand.New(rand.NewPCG(uint64(w.sc.Knobs.RandSeed), uint64(idx)+1))
 	// pre-seeded plan: replies relative to the creation instant, some of them "before their probe"
@@ -342,6 +353,8 @@ func ExecuteFree(t *testing.T, sc *Scenario, outp **Outcome) {
 			<-done
 		}
 		out.Virtual = w.now()
+		w.FreeFailed = int(fw.failed.Load())
+		w.FreeEndpoints = int(fw.neps.Load())
 	})
 }
 
